@@ -29,8 +29,10 @@ def confirm(d):
         out['demo_patched_rc'], out['demo_patched_tail'] = demo_output(wt, demo)
         n, missing = run_tests(wt)
         out['tests_stable_passed'], out['tests_missing'] = n, missing
-    out['ok'] = out['demo_clean_rc'] == 0 and out['demo_patched_rc'] == 0 and out['demo_clean_tail'] == out['demo_patched_tail'] \
-        and not out['tests_missing']
+    digest = lambda t: re.findall(r'\b[0-9a-f]{32,64}\b', t.lower())      # the hash(es) the differential demo prints
+    out['digest_clean'], out['digest_patched'] = digest(out['demo_clean_tail']), digest(out['demo_patched_tail'])
+    out['ok'] = out['demo_clean_rc'] == 0 and out['demo_patched_rc'] == 0 and bool(out['digest_clean']) and \
+        out['digest_clean'] == out['digest_patched'] and not out['tests_missing']
     return out
 
 
